@@ -5,6 +5,6 @@ cd /verif
 ids=${@:-$(ls seeded | grep -v unconfirmed)}
 for s in $ids; do
   p=$(python3 -c "import json;print(json.load(open('seeded/$s/meta.json'))['property'])")
-  r=$(python3 tools/trymutant.py seeded/$s/patch.diff $tier $p 2>&1 | grep -E "^(C[0-9]+ rc=|PATCH)" | cut -c1-220)
+  r=$(python3 tools/trymutant.py seeded/$s/patch.diff $tier $p 2>&1 | grep -a -E "^(C[0-9]+ rc=|PATCH)" | cut -c1-220)
   echo "$s :: $r"
 done
